@@ -110,18 +110,44 @@ def expected_records(spec, cols):
     return sorted(tuple(float(x).hex() for x in row) for row in zip(*fields))
 
 
-def foreign_input():
-    """the OTHER data of a pre-existing valid catalog (2 patches, 5 records, weights only)"""
-    import numpy as np
-    return {"ra": np.asarray([200.0, 201.5, 250.0, 251.25, 252.0]),
-            "dec": np.asarray([10.0, 11.0, -5.0, -6.5, -4.0]),
-            "w": np.asarray([2.0, 4.0, 8.0, 16.0, 32.0]),
-            "pid": np.asarray([0, 0, 1, 1, 1])}
+CATALOG_PRES = ("catalog_other", "catalog_fewer", "catalog_same", "catalog_more")
 
 
-def foreign_records():
+def old_npatch(spec):
+    """number of patches (ids 0..k-1) of the pre-existing valid catalog, relative to the ncent patches (ids
+    0..ncent-1) the new creation writes: fewer / the same / more"""
+    pre, ncent = spec["pre"], spec.get("ncent", 3)
+    if pre == "catalog_other":
+        return 2
+    if pre == "catalog_fewer":
+        return max(1, ncent - 2)
+    if pre == "catalog_same":
+        return ncent
+    if pre == "catalog_more":
+        return ncent + 2
+    raise ValueError(pre)
+
+
+def foreign_input(npatch=2):
+    """the OTHER data of a pre-existing valid catalog (npatch patches with ids 0..npatch-1, weights only;
+    npatch=2: 5 records)"""
     import numpy as np
-    c = foreign_input()
+    ra, dec = [200.0, 201.5, 250.0, 251.25, 252.0], [10.0, 11.0, -5.0, -6.5, -4.0]
+    w, pid = [2.0, 4.0, 8.0, 16.0, 32.0], [0, 0, 1, 1, 1]
+    for p in range(2, npatch):
+        for j in range(2 + p % 2):
+            ra.append(200.0 + 12.5 * p + 1.25 * j)
+            dec.append(30.0 - 7.0 * p + 0.5 * j)
+            w.append(float(2 ** ((p + j) % 6)))
+            pid.append(p)
+    if npatch == 1:
+        pid = [0] * len(pid)
+    return {"ra": np.asarray(ra), "dec": np.asarray(dec), "w": np.asarray(w), "pid": np.asarray(pid)}
+
+
+def foreign_records(npatch=2):
+    import numpy as np
+    c = foreign_input(npatch)
     return sorted(tuple(float(x).hex() for x in row)
                   for row in zip(np.deg2rad(c["ra"]), np.deg2rad(c["dec"]), c["w"]))
 
@@ -195,9 +221,9 @@ def prepare_target(spec, yaw):
             f.write("0123456789\n")
     elif pre == "dir_empty":
         os.makedirs(cache)
-    elif pre == "catalog_other":
+    elif pre in CATALOG_PRES:
         import pandas as pd
-        c = foreign_input()
+        c = foreign_input(old_npatch(spec))
         yaw.Catalog.from_dataframe(cache, pd.DataFrame(c), ra_name="ra", dec_name="dec", weight_name="w",
                                    patch_name="pid", max_workers=1, chunksize=2)
     else:
@@ -224,6 +250,17 @@ def install_injection(spec):
 
         def finalize(self):
             raise OSError("injected fault in CatalogWriter.finalize (writer)")
+
+        cc.CatalogWriter.finalize = finalize
+    elif kind == "final_late":
+        # the fault strikes at the last step of finalize: every patch writer has been flushed and closed (all
+        # the data are on disk), writing the list of patch ids fails
+        import yaw.catalog.catalog as cc
+
+        def finalize(self):
+            for writer in self.writers.values():
+                writer.close()
+            raise OSError("injected fault at the end of CatalogWriter.finalize (writing the patch id list)")
 
         cc.CatalogWriter.finalize = finalize
 
